@@ -9,8 +9,11 @@ sys.path.insert(0, V)
 props = [json.loads(l)['id'] for l in open(os.path.join(V, 'properties.jsonl'))]
 checks = []
 na = []
+unfinished = set(open(os.path.join(V, 'tools', 'unfinished.txt')).read().split()) if os.path.exists(os.path.join(V, 'tools', 'unfinished.txt')) else set()
 for pid in props:
     try:
+        if pid in unfinished:
+            raise RuntimeError('unfinished')
         mod = importlib.import_module('harness.props.' + pid.lower())
         meta = mod.META
     except Exception as e:  # not built yet
